@@ -13,6 +13,9 @@ WEAK = """    open spec fn wf_ok(&self) -> bool { true }
     open spec fn wf_nocomp() -> bool { false }
     open spec fn wf_eqv(&self, other: &Self) -> bool { true }
     proof fn lemma_det(data: Seq<u8>, p: int, v1: &Self, e1: int, v2: &Self, e2: int) {}
+    open spec fn wf_fit(&self) -> bool { true }
+    open spec fn wf_empty_ok() -> bool { false }
+    proof fn lemma_dec_ok(data: Seq<u8>, p: int, v: &Self, p2: int) {}
     proof fn lemma_rt(&self, pre: Seq<u8>) {}
 """
 
@@ -58,6 +61,9 @@ impl<'a> NULL<'a> {
     open spec fn wf_nocomp() -> bool { false }
     open spec fn wf_eqv(&self, other: &Self) -> bool { self.dview() == other.dview() && self.lfield() == other.lfield() }
     proof fn lemma_det(data: Seq<u8>, p: int, v1: &Self, e1: int, v2: &Self, e2: int) {}
+    open spec fn wf_fit(&self) -> bool { true }
+    open spec fn wf_empty_ok() -> bool { false }
+    proof fn lemma_dec_ok(data: Seq<u8>, p: int, v: &Self, p2: int) {}
     proof fn lemma_rt(&self, pre: Seq<u8>) {
         let d = pre + self.wf_enc();
         assert(d.subrange(pre.len() as int, d.len() as int) =~= self.dview());
@@ -76,6 +82,10 @@ pub open spec fn opt_items(cs: Seq<OPTCode>) -> Seq<(u16, Seq<u8>)> { cs.map(|i:
 pub closed spec fn opt_fits(cs: Seq<OPTCode>) -> bool { tlv16_enc(opt_items(cs)).len() <= 65535 }
 pub proof fn lemma_opt_fits(cs: Seq<OPTCode>)
     ensures opt_fits(cs) == (tlv16_enc(opt_items(cs)).len() <= 65535) {}
+impl<'a> OPT<'a> {
+    /// an OPT value within limits has an RDATA that fits RDLENGTH
+    pub proof fn lemma_fits(&self) requires self.wf_ok() ensures self.wf_enc().len() <= 65535 {}
+}
 pub proof fn lemma_opt_items_push(cs: Seq<OPTCode>, c: OPTCode)
     ensures opt_items(cs.push(c)) == opt_items(cs).push((c.code, c.data@)),
             opt_items(cs.push(c)).drop_last() == opt_items(cs),
@@ -107,6 +117,9 @@ pub proof fn lemma_opt_items_push(cs: Seq<OPTCode>, c: OPTCode)
         self.udp_packet_size == other.udp_packet_size && self.version == other.version && opt_items(self.opt_codes@) == opt_items(other.opt_codes@)
     }
     proof fn lemma_det(data: Seq<u8>, p: int, v1: &Self, e1: int, v2: &Self, e2: int) { lemma_tlv16_det(data, p + 10, opt_items(v1.opt_codes@), opt_items(v2.opt_codes@), data.len() as int); }
+    open spec fn wf_fit(&self) -> bool { true }
+    open spec fn wf_empty_ok() -> bool { true }
+    proof fn lemma_dec_ok(data: Seq<u8>, p: int, v: &Self, p2: int) { lemma_tlv16_dec_len(data, p + 10, opt_items(v.opt_codes@), data.len() as int); lemma_opt_fits(v.opt_codes@); }
     proof fn lemma_rt(&self, pre: Seq<u8>) { lemma_tlv16_rt(pre, opt_items(self.opt_codes@)); }
 """, verified_inherent=('extract_rcode_from_ttl', 'encode_ttl'), external_trait_fns=())
     # OPT::len: R11 + fold invariant
@@ -211,6 +224,9 @@ impl<'a> TXT<'a> {
     open spec fn wf_nocomp() -> bool { false }
     open spec fn wf_eqv(&self, other: &Self) -> bool { self.items() == other.items() && self.sz() == other.sz() }
     proof fn lemma_det(data: Seq<u8>, p: int, v1: &Self, e1: int, v2: &Self, e2: int) { lemma_lv8_det(data, p, v1.items(), v2.items(), data.len() as int); }
+    open spec fn wf_fit(&self) -> bool { true }
+    open spec fn wf_empty_ok() -> bool { false }
+    proof fn lemma_dec_ok(data: Seq<u8>, p: int, v: &Self, p2: int) { lemma_lv8_dec_len(data, p, v.items(), data.len() as int); if v.items().len() == 0 { assert(p == data.len()); } }
     proof fn lemma_rt(&self, pre: Seq<u8>) { lemma_lv8_rt(pre, self.items()); }
 """, verified_inherent=('new', 'add_char_string'), external_trait_fns=())
     # construction keeps the cached size equal to the encoded length: a TXT built through the public API is well formed
@@ -266,6 +282,7 @@ impl<'a> TXT<'a> {
     # ---- NSEC (RFC 4034 4.1): next domain name (never compressed) + type bit maps with strictly increasing windows
     rel = 'dns/rdata/nsec.rs'
     c.append(rel, """verus!{
+pub uninterp spec fn nsec_tail(v: &NSEC) -> Seq<u8>;
 pub open spec fn nsec_items(ms: Seq<TypeBitMap>) -> Seq<(u8, Seq<u8>)> { ms.map(|i: int, m: TypeBitMap| (m.window_block, m.bitmap@)) }
 pub proof fn lemma_nsec_items_push(ms: Seq<TypeBitMap>, m: TypeBitMap)
     ensures nsec_items(ms.push(m)) == nsec_items(ms).push((m.window_block, m.bitmap@)), nsec_items(ms.push(m)).drop_last() == nsec_items(ms),
@@ -277,7 +294,8 @@ pub proof fn lemma_nsec_items_push(ms: Seq<TypeBitMap>, m: TypeBitMap)
 """)
     NSEC_WF = impl_header(c, rel, 'NSEC')
     wrap_type(c, rel, 'NSEC', """    open spec fn wf_ok(&self) -> bool { name_ok(self.next_name.lv()) }
-    closed spec fn wf_enc(&self) -> Seq<u8> { arbitrary() }
+    /// next domain name, then the type bit maps as the (assumed) writer orders them
+    open spec fn wf_enc(&self) -> Seq<u8> { name_enc(self.next_name.lv()) + nsec_tail(self) }
     open spec fn wf_dec(data: Seq<u8>, p: int, v: &Self, p2: int) -> bool {
         &&& dec_labels(data, p, 0) == Some(v.next_name.lv())
         &&& wl8(data, p + inplace_len(data, p), nsec_items(v.type_bit_maps@), data.len() as int)
@@ -290,6 +308,9 @@ pub proof fn lemma_nsec_items_push(ms: Seq<TypeBitMap>, m: TypeBitMap)
     open spec fn wf_nocomp() -> bool { true }
     open spec fn wf_eqv(&self, other: &Self) -> bool { self.next_name.lv() == other.next_name.lv() && nsec_items(self.type_bit_maps@) == nsec_items(other.type_bit_maps@) }
     proof fn lemma_det(data: Seq<u8>, p: int, v1: &Self, e1: int, v2: &Self, e2: int) { lemma_wl8_det(data, p + inplace_len(data, p), nsec_items(v1.type_bit_maps@), nsec_items(v2.type_bit_maps@), data.len() as int); }
+    open spec fn wf_fit(&self) -> bool { true }
+    open spec fn wf_empty_ok() -> bool { false }
+    proof fn lemma_dec_ok(data: Seq<u8>, p: int, v: &Self, p2: int) { lemma_name_dec_ok(data, p, v.next_name.lv()); }
     #[verifier::external_body]
     proof fn lemma_rt(&self, pre: Seq<u8>) {}
 """, external_trait_fns=('write_to', 'len'))
@@ -330,6 +351,7 @@ pub proof fn lemma_nsec_items_push(ms: Seq<TypeBitMap>, m: TypeBitMap)
     # ---- SVCB / HTTPS (RFC 9460 2.2): priority, target name (never compressed), SvcParams with strictly increasing keys
     rel = 'dns/rdata/svcb.rs'
     c.append(rel, """verus!{
+pub uninterp spec fn svcb_tail(v: &SVCB) -> Seq<u8>;
 /// the parameter map holds exactly the items of the wire list
 pub open spec fn params_match(m: Map<u16, Cow<[u8]>>, items: Seq<(u16, Seq<u8>)>) -> bool {
     &&& forall|k: u16| #[trigger] m.contains_key(k) <==> exists|i: int| 0 <= i < items.len() && (#[trigger] items[i]).0 == k
@@ -344,7 +366,8 @@ impl<'a> SVCB<'a> {
 """)
     SVCB_WF = impl_header(c, rel, 'SVCB')
     wrap_type(c, rel, 'SVCB', """    open spec fn wf_ok(&self) -> bool { name_ok(self.tgt()) }
-    closed spec fn wf_enc(&self) -> Seq<u8> { arbitrary() }
+    /// priority, target name, then the parameters as the (assumed) writer emits them
+    open spec fn wf_enc(&self) -> Seq<u8> { enc16(self.prio()) + name_enc(self.tgt()) + svcb_tail(self) }
     open spec fn wf_dec(data: Seq<u8>, p: int, v: &Self, p2: int) -> bool {
         &&& p + 2 <= data.len()
         &&& v.prio() as nat == be_nat(data.subrange(p, p + 2))
@@ -372,6 +395,9 @@ impl<'a> SVCB<'a> {
             assert(v1.pv()[a[i].0]@ == a[i].1 && v2.pv()[b[i].0]@ == b[i].1);
         }
     }
+    open spec fn wf_fit(&self) -> bool { true }
+    open spec fn wf_empty_ok() -> bool { false }
+    proof fn lemma_dec_ok(data: Seq<u8>, p: int, v: &Self, p2: int) { lemma_name_dec_ok(data, p + 2, v.tgt()); }
     #[verifier::external_body]
     proof fn lemma_rt(&self, pre: Seq<u8>) {}
 """, external_trait_fns=('write_to', 'len'))
@@ -462,6 +488,20 @@ pub open spec fn gw_enc(g: &Gateway) -> Seq<u8> {
             })
     }
     proof fn lemma_det(data: Seq<u8>, p: int, v1: &Self, e1: int, v2: &Self, e2: int) {}
+    open spec fn wf_fit(&self) -> bool { true }
+    open spec fn wf_empty_ok() -> bool { false }
+    proof fn lemma_dec_ok(data: Seq<u8>, p: int, v: &Self, p2: int) {
+        match v.gateway {
+            Gateway::Domain(n) => { lemma_name_dec_ok(data, p + 3, n.lv()); lemma_inplace_bound(data, p + 3, 0); }
+            Gateway::IPv4(a) => { assert(data.subrange(p + 3, p + 7).len() == 4); }
+            Gateway::IPv6(a) => { assert(data.subrange(p + 3, p + 19).len() == 16); }
+            Gateway::None => {}
+        }
+        assert(v.public_key@.len() <= 65535);
+        assert(match v.gateway { Gateway::Domain(n) => name_ok(n.lv()), Gateway::IPv4(a) => ipv4_octets(a).len() == 4,
+                                  Gateway::IPv6(a) => ipv6_octets(a).len() == 16, Gateway::None => true });
+        assert(v.wf_enc().len() > 0);
+    }
     proof fn lemma_rt(&self, pre: Seq<u8>) {
         let d = pre + self.wf_enc();
         let q = pre.len() as int + 3;
@@ -509,6 +549,9 @@ pub open spec fn gw_enc(g: &Gateway) -> Seq<u8> {
         && self.rd == other.rd && self.area == other.area && self.id == other.id && self.sel == other.sel
     }
     proof fn lemma_det(data: Seq<u8>, p: int, v1: &Self, e1: int, v2: &Self, e2: int) {}
+    open spec fn wf_fit(&self) -> bool { true }
+    open spec fn wf_empty_ok() -> bool { false }
+    proof fn lemma_dec_ok(data: Seq<u8>, p: int, v: &Self, p2: int) { lemma_pow256_vals(); lemma_enc_be_inj(data.subrange(p + 4, p + 7)); lemma_enc_be_inj(data.subrange(p + 13, p + 19)); }
     proof fn lemma_rt(&self, pre: Seq<u8>) {
         lemma_pow256_vals();
         let d = pre + self.wf_enc();
